@@ -47,23 +47,29 @@ class SqlFluffTable(Table):
         :param alias: alias of the table segment
         :return: 'Table' object
         """
+        # layout inside a dotted reference (T-SQL allows `a . b` and `a./*c*/b`) is not part of the name
+        segments = [
+            s
+            for s in table.segments
+            if not (s.is_whitespace or s.is_comment or s.is_meta)
+        ]
         dot_idx = None
-        for idx in range(len(table.segments) - 2, -1, -1):
-            token = table.segments[idx]
+        for idx in range(len(segments) - 2, -1, -1):
+            token = segments[idx]
             if bool(token.type == "symbol"):
                 dot_idx, _ = idx, token
                 break
         real_name = (
-            table.segments[dot_idx + 1].raw
+            segments[dot_idx + 1].raw
             if dot_idx
-            else (table.raw if table.type == "identifier" else table.segments[0].raw)
+            else (table.raw if table.type == "identifier" else segments[0].raw)
         )
         # rewrite identifier's get_parent_name accordingly
         parent_name = (
             "".join(
                 [
                     escape_identifier_name(segment.raw)
-                    for segment in table.segments[:dot_idx]
+                    for segment in segments[:dot_idx]
                 ]
             )
             if dot_idx
